@@ -511,6 +511,79 @@ Section LocksP.
       rewrite Hholds in H1. unfold holders in HR. lia.
   Qed.
 
+  (* ---- program order: the commits a thread has executed are, in order, the first commits of its program
+     (for threads that plan nothing: request threads; an expiry pass adds the steps it plans) *)
+  Definition act_commit (a : mact S R) : option (nat * bool * (S → S * R)) :=
+    match a with MCommit j w f => Some (j, w, f) | _ => None end.
+  Definition prog_commits (l : list (mact S R)) : list (nat * bool * (S → S * R)) := omap act_commit l.
+  Definition thread_commits (i : nat) (tr : list (nat * mact S R * msh S)) : list (nat * bool * (S → S * R)) :=
+    omap (λ e : nat * mact S R * msh S, if Nat.eqb e.1.1 i then act_commit e.1.2 else None) tr.
+  Definition no_plan (a : mact S R) : Prop := match a with MPlan _ _ => False | _ => True end.
+
+  Definition po_inv (progs : list (list (mact S R))) (m : mstate) (done_ : nat → list (nat * bool * (S → S * R))) : Prop :=
+    ∀ i p, progs !! i = Some p → Forall no_plan p →
+      ∃ t, m.2 !! i = Some t ∧ plan (loc t) = [] ∧ Forall no_plan (todo t) ∧
+           done_ i ++ prog_commits (todo t) = prog_commits p.
+
+  Lemma po_step atomic progs i m done_ : po_inv progs m done_ →
+    let r := mstep (msem atomic) i m in
+    po_inv progs r.1 (λ k, done_ k ++ thread_commits k (match r.2 with Some e => [e] | None => [] end)).
+  Proof.
+    intros Hinv.
+    destruct (mstep_cases (msem atomic) i m) as [->|(t & a & rest & sh' & lo' & more & Ht & Htd & Hsem & ->)].
+    { cbn. intros k p Hp Hnp. destruct (Hinv k p Hp Hnp) as (t & H1 & H2 & H3 & H4). exists t. by rewrite app_nil_r. }
+    cbn [fst snd]. destruct m as [sh ts]. cbn [fst snd] in *.
+    intros k p Hp Hnp. destruct (Hinv k p Hp Hnp) as (tk & Hk & Hpl & Hnpt & Hdone). cbn [snd] in Hk.
+    unfold thread_commits. cbn [omap list_omap fst snd].
+    destruct (decide (k = i)) as [->|Hne].
+    - rewrite Ht in Hk. injection Hk as <-. rewrite Nat.eqb_refl.
+      rewrite Htd in Hnpt, Hdone. apply Forall_cons in Hnpt as [Hna Hnrest].
+      assert (more = [] ∧ plan lo' = []) as [-> Hpl'].
+      { destruct a as [j w|j|j w f|j g|j w]; cbn [msem] in Hsem; try done.
+        - destruct (locks sh !! j) as [l|]; [|done]. destruct (can_acquire w l); [|done]. by injection Hsem as <- <- <-.
+        - by injection Hsem as <- <- <-.
+        - destruct (if atomic then shards sh !! j else snap (loc t)) as [s|].
+          + destruct (f s) as [s' r0]. by injection Hsem as <- <- <-.
+          + by injection Hsem as <- <- <-.
+        - injection Hsem as <- <- <-. by rewrite Hpl. }
+      exists (Thread ([] ++ rest) lo'). rewrite list_lookup_insert by (by eapply lookup_lt_Some).
+      split; [done|]. split; [done|]. split; [done|]. cbn [todo app].
+      rewrite <-Hdone. unfold prog_commits. cbn [omap list_omap].
+      destruct (act_commit a) as [c|]; [by rewrite <-app_assoc|by rewrite app_nil_r].
+    - exists tk. rewrite list_lookup_insert_ne by done. split; [done|]. split; [done|]. split; [done|].
+      assert (Nat.eqb i k = false) as -> by (apply Nat.eqb_neq; congruence). cbn. by rewrite app_nil_r.
+  Qed.
+
+  Lemma thread_commits_app i tr1 tr2 : thread_commits i (tr1 ++ tr2) = thread_commits i tr1 ++ thread_commits i tr2.
+  Proof. unfold thread_commits. apply omap_app. Qed.
+
+  Lemma po_run atomic progs sched : ∀ m done_, po_inv progs m done_ →
+    po_inv progs (run (msem atomic) sched m) (λ k, done_ k ++ thread_commits k (trace (msem atomic) sched m)).
+  Proof.
+    induction sched as [|i sched IH]; intros m done_ Hinv.
+    - cbn. intros k p Hp Hnp. destruct (Hinv k p Hp Hnp) as (t & H). exists t. by rewrite app_nil_r.
+    - cbn [run trace]. pose proof (po_step atomic progs i m done_ Hinv) as Hs. cbn zeta in Hs.
+      specialize (IH _ _ Hs). intros k p Hp Hnp. destruct (IH k p Hp Hnp) as (t & H1 & H2 & H3 & H4).
+      exists t. split; [done|]. split; [done|]. split; [done|]. rewrite thread_commits_app, app_assoc. exact H4.
+  Qed.
+
+  (* C04: "consistent with program order".  Under EVERY schedule, the steps a (non-planning) thread has
+     committed are exactly the FIRST steps of its program, in program order; when the thread has finished,
+     all of them. *)
+  Theorem commits_in_program_order atomic (ss : list S) (progs : list (list (mact S R))) sched i p :
+    progs !! i = Some p → Forall no_plan p →
+    let m0 := (msh_init ss, map mthread_of progs) in
+    ∃ t, (run (msem atomic) sched m0).2 !! i = Some t ∧
+         thread_commits i (trace (msem atomic) sched m0) ++ prog_commits (todo t) = prog_commits p ∧
+         (todo t = [] → thread_commits i (trace (msem atomic) sched m0) = prog_commits p).
+  Proof.
+    intros Hp Hnp m0.
+    assert (po_inv progs m0 (λ _, [])) as H0.
+    { intros k pk Hk Hnk. exists (mthread_of pk). cbn [m0 snd]. rewrite list_lookup_fmap, Hk. done. }
+    destruct (po_run atomic progs sched m0 _ H0 i p Hp Hnp) as (t & H1 & _ & _ & H4).
+    exists t. split; [done|]. cbn [app] in H4. split; [done|]. intros Hd. rewrite Hd in H4. cbn in H4. by rewrite app_nil_r in H4.
+  Qed.
+
   (* ---- a per-shard predicate kept by every step function holds for every shard, always *)
   Section Pred.
     Variable P : S → Prop.
